@@ -104,6 +104,15 @@ def expected_sequences(ap):
         return full, full, 1
     if nav:
         return None, None, None
+    if shape == "nested" and len(reps) == 2 and not ends:
+        (a, d), (b, c) = sorted(reps, key=lambda r: (r[0], -r[1]))
+        if not (a <= b and c <= d):
+            (b, c), (a, d) = (a, d), (b, c)
+        inner = list(range(a, b)) + list(range(b, c)) * 2 + list(range(c, d))
+        if c == d:
+            # the inner repeat ends on the outer repeat's end barline: one sign closes both
+            return None, full, None
+        return list(range(0, a)) + inner * 2 + list(range(d, n)), full, None
     if not ends:
         # independent simple repeats
         mx = []
@@ -253,6 +262,21 @@ def check_part(res, ap, orig_part, rp, opname, policy, update_ids, orig_objs):
                         continue
                     if id(v) in orig_objs or (id(v) not in inside and attr in ("start", "end", "tie_prev", "tie_next", "grace_prev", "grace_next", "start_note", "end_note")):
                         res.violation("U3-references", opname, "%s.%s of a copied object points outside the copy (%s)" % (type(o).__name__, attr, "into the original" if id(v) in orig_objs else "to an object not registered in the result"), site=type(o).__name__ + "." + attr)
+                        return
+                # links come in pairs and join neighbours in time: a tie (grace chain) that was cut at a segment
+                # boundary is cut on both sides, one that was kept joins the copy of the same visit
+                for fwd, back in (("tie_next", "tie_prev"), ("grace_next", "grace_prev")):
+                    v = getattr(o, fwd, None)
+                    if v is not None and not isinstance(v, str) and (fwd == "tie_next" or hasattr(v, back)):
+                        if getattr(v, back, None) is not o:
+                            res.violation("U3-references", opname, "%s of note %s is %s, whose %s is %s" % (fwd, getattr(o, "id", None), getattr(v, "id", None), back, getattr(getattr(v, back, None), "id", None)), site="one-sided:" + fwd)
+                            return
+                        if fwd == "tie_next" and v.start.t != o.end.t:
+                            res.violation("U3-references", opname, "note %s (ends at %s) is tied to %s, which starts at %s" % (getattr(o, "id", None), o.end.t, getattr(v, "id", None), v.start.t), site="tie-not-adjacent")
+                            return
+                    w_ = getattr(o, back, None)
+                    if w_ is not None and not isinstance(w_, str) and getattr(w_, fwd, None) is not o:
+                        res.violation("U3-references", opname, "%s of note %s is %s, whose %s is %s" % (back, getattr(o, "id", None), getattr(w_, "id", None), fwd, getattr(getattr(w_, fwd, None), "id", None)), site="one-sided:" + back)
                         return
                 for attr in ("slur_starts", "slur_stops", "tuplet_starts", "tuplet_stops"):
                     lst = getattr(o, attr, None)
